@@ -112,3 +112,61 @@ package ast
 //@ func (d Decl) Modes()
 //@   trusted
 //@   modifies nothing
+
+// ---- C08: structural equality of constants -------------------------------------------------------------
+// shape(c): the constant has components (fst/snd are meaningful).
+//@ spec func isShape(t ConstantType) bool = t == PairShape || t == ListShape || t == MapShape || t == StructShape
+//@ spec func isNilShape(c Constant) bool = (c.Type == ListShape || c.Type == MapShape || c.Type == StructShape) && c.fst == nil
+// wfC: what the public constructors establish - a pair, and a non-empty list/map/struct, has both components.
+//@ spec func wfP(p *Constant) bool = p != nil && wfC2(p.Type, p.fst, p.snd)
+//@ spec func wfC2(t ConstantType, fst *Constant, snd *Constant) bool = NameType <= t && t <= StructShape && wfC3(t, fst, snd)
+//@ spec func wfC3(t ConstantType, fst *Constant, snd *Constant) bool =
+//@      !isShape(t) || (t != PairShape && fst == nil) || (fst != nil && snd != nil && wfP(fst) && wfP(snd))
+//@ spec func wfC(c Constant) bool = wfC2(c.Type, c.fst, c.snd)
+
+// Structural equality, by recursion over the components.
+//@ spec func eqP(p *Constant, q *Constant) bool = eqC2(p.Type, p.Symbol, p.NumValue, p.fst, p.snd, q.Type, q.Symbol, q.NumValue, q.fst, q.snd)
+//@ spec func eqC2(t ConstantType, sym string, num int64, fst *Constant, snd *Constant, t2 ConstantType, sym2 string, num2 int64, fst2 *Constant, snd2 *Constant) bool =
+//@      t == t2 && num == num2 &&
+//@      ((t == NameType || t == StringType || t == BytesType) ? sym == sym2 :
+//@       (t == NumberType || t == Float64Type || t == TimeType || t == DurationType) ? true :
+//@       !isShape(t) ? false :
+//@       (t != PairShape && fst == nil) ? fst2 == nil :
+//@       (t != PairShape && fst2 == nil) ? false :
+//@       eqP(fst, fst2) && eqP(snd, snd2))
+//@ spec func eqCP(a Constant, q *Constant) bool = eqC2(a.Type, a.Symbol, a.NumValue, a.fst, a.snd, q.Type, q.Symbol, q.NumValue, q.fst, q.snd)
+//@ spec func eqC(a Constant, b Constant) bool = eqC2(a.Type, a.Symbol, a.NumValue, a.fst, a.snd, b.Type, b.Symbol, b.NumValue, b.fst, b.snd)
+
+//@ func (c Constant) Equals(u)
+//@   modifies nothing
+//@   opt fuel 3
+//@   requires wfC(c) && (u is Constant ==> wfC(u as Constant)) && (u is *Constant ==> wfP(u as *Constant))
+//@   ensures (u is Constant) ==> result == eqC(c, u as Constant)
+//@   ensures (u is *Constant) ==> result == eqCP(c, u as *Constant)
+//@   ensures !(u is Constant) && !(u is *Constant) ==> !result
+//@   ensures result && (u is Constant) ==> c.Hash() == (u as Constant).Hash()
+
+// Ghost depth of a well-formed constant (components are strictly smaller): induction measure only. Trusted.
+//@ spec func cdepth(p *Constant) int
+//@ axiom cdepthDecreases(p *Constant): wfP(p) && isShape(p.Type) && p.fst != nil ==> cdepth(p) >= 1 && 0 <= cdepth(p.fst) && cdepth(p.fst) < cdepth(p) && 0 <= cdepth(p.snd) && cdepth(p.snd) < cdepth(p)
+
+// Structural equality is an equivalence relation on well-formed constants, and equal constants have equal hashes.
+//@ lemma eqRefl(p *Constant): wfP(p) ==> eqP(p, p)
+//@   decreases cdepth(p)
+//@   induct eqRefl(p.fst), eqRefl(p.snd)
+//@   use cdepthDecreases(p)
+//@ lemma eqSym(p *Constant, q *Constant): wfP(p) && wfP(q) ==> eqP(p, q) == eqP(q, p)
+//@   decreases cdepth(p)
+//@   induct eqSym(p.fst, q.fst), eqSym(p.snd, q.snd)
+//@   use cdepthDecreases(p)
+//@ lemma eqTrans(p *Constant, q *Constant, r *Constant): wfP(p) && wfP(q) && wfP(r) && eqP(p, q) && eqP(q, r) ==> eqP(p, r)
+//@   decreases cdepth(p)
+//@   induct eqTrans(p.fst, q.fst, r.fst), eqTrans(p.snd, q.snd, r.snd)
+//@   use cdepthDecreases(p)
+//@ lemma eqHash(p *Constant, q *Constant): eqP(p, q) ==> p.NumValue == q.NumValue && p.Type == q.Type
+
+// Equality of temporal bounds and intervals is reflexive for every bound the constructors can build.
+//@ spec func builtBound(b TemporalBound) bool = TimestampBound <= b.Type && b.Type <= DurationTemporalBound
+//@ lemma boundEqRefl(b TemporalBound): builtBound(b) ==> b.Equals(b)
+//@ lemma boundEqSym(a TemporalBound, b TemporalBound): a.Equals(b) == b.Equals(a)
+//@ lemma intervalEqRefl(i Interval): builtBound(i.Start) && builtBound(i.End) ==> i.Equals(i)
